@@ -5,6 +5,26 @@ V = os.path.dirname(os.path.dirname(os.path.abspath(__file__)))
 
 # id -> (technique, level text, level note, design ref)
 CHECKS = {
+ "C08": ("stateful/model-based proptest: generated operation sequences (write, write_all, write_vectored, write!, flush) x 4 colour choices x 4 sink kinds x 2 constructors against a StripStream / identity model",
+         "Model-based generated-input search over call histories: after every history the inner writer must hold strip(consumed) (Never) or the consumed bytes (AlwaysAnsi/Always), return values must equal a plain StripStream's, current_choice/into_inner/to_adapted_string must agree with the mode in force; Auto is exercised under two pinned environments.",
+         "Trusted: StripStream<Vec<u8>> and strip_bytes as the model of 'what the strip stream would deliver' (their own correctness is C01/C03/C06).",
+         "DESIGN.md §4-C08"),
+ "C09": ("exhaustive enumeration of the 6144-configuration cross product in a single-threaded process (pty master as the terminal stream) + proptest random environment values; decision-list oracle",
+         "The quantified domain is finite and is enumerated completely (global x 5 variables x terminal/non-terminal); the oracle is the decision list of the statement as a pure function. Random byte-string values per variable test the 'non-empty' / 'equals 0' / 'equals dumb' predicates beyond the grid values.",
+         "Trusted: /dev/ptmx behaving as a terminal (checked at run time; without it the check exits 2, inconclusive), the decision list transcribed from the statement.",
+         "DESIGN.md §4-C09"),
+ "C10": ("brute-force nearest-colour oracle over a boundary set (lattice, candidates +-1, midpoints) and random values in quick, over all 2^24 RGB values in thorough; exhaustive tables",
+         "Exhaustive in the thorough tier (every RGB value x 240-colour target and 8 palettes incl. degenerate ones); quick tier covers every candidate neighbourhood and decision boundary midpoint. Oracle is an independent i64 brute-force search with lowest-index tie-breaking and a palette computed by formula.",
+         "Trusted: the metric's weights are taken from the crate as specification (the statement says 'red-mean weighted distance' without constants); published VGA/Windows-10 tables.",
+         "DESIGN.md §3.4, §4-C10"),
+ "C11": ("bounded-exhaustive vocabulary and '#'-word enumeration + proptest grammar, single-edit mutations and arbitrary Unicode against a reference parser; print/parse round trip",
+         "Differential generated-input search against a reference parser written from the syntax in the statement (accept/reject, denoted style, error kind and word), plus a round-trip through a printer for all expressible styles. Exhaustive for all 1-2 word descriptions over a 66-word vocabulary and all 3- and 6-character '#' words over a 12-symbol alphabet.",
+         "Trusted: reference parser in the check. Undetermined inputs (explicit '+', U+212A) are excluded and counted; '#rgb' is read as three digit values as the crate's pinned tests state.",
+         "DESIGN.md §4-C11"),
+ "C12": ("exhaustive lists of <= 3 codes over 0..=110 and extended-colour forms in every position + proptest well-formed/malformed lists against a reference SGR fold",
+         "Differential generated-input search against a reference left-to-right fold of the SGR table in the statement; exhaustive for all lists of up to three codes (1.38 million) and for the extended-colour forms in all positions of short lists.",
+         "Trusted: reference fold in the check. Excluded as undetermined: explicit '+', and 38/48/58 followed by something that is neither a well-formed nor an end-of-list-truncated extended colour.",
+         "DESIGN.md §4-C12"),
  "C05": ("exhaustive effect sets and colours per slot + proptest random styles; round trip through the reference SGR interpreter; Display == io::Write path; format-spec grid metamorphic relation",
          "Generated-input search over style values with a round-trip oracle through an independent SGR interpreter and a strip/parse purity oracle; every spec of a fixed grid of width/fill/align/precision/alternate flags must reproduce the plain rendering byte for byte. All 4096 effect sets and all palette/indexed colours and RGB component values per slot are enumerated.",
          "Trusted: reference SGR interpreter and VT parser (vcore), the crate's own strip_str for the 'strips to nothing' clause (cross-checked by the reference parser seeing only CSI m events).",
